@@ -40,7 +40,6 @@ CLAUSES = {
 }
 
 FRAMING = (8, 9, 10, 35)
-N_GOOD = 6  # number of accepted tag spellings in Menu.TAGS
 
 
 class Item:
@@ -52,6 +51,7 @@ class Menu:
     """All concrete inputs. The seed rotates concrete names only."""
 
     def __init__(self, seed):
+        self.seed = seed
         k = seed % 4
         A = ["a", "acc", "zz", "Q7"][k]
         B = ["b", "bob", "yy", "W8"][k]
@@ -304,10 +304,15 @@ def real_apply(M, obj, op):
         return e
 
 
+def op_of(M, x):
+    """Paths hold indexes into M.OPS during exploration and the op tuples themselves in replay files."""
+    return M.OPS[x] if isinstance(x, int) else x
+
+
 def rebuild(M, cls, path):
     obj = new_root(cls)
     for oi in path:
-        real_apply(M, obj, M.OPS[oi])
+        real_apply(M, obj, op_of(M, oi))
     return obj
 
 
@@ -868,9 +873,10 @@ def observe(M, cls, path, st, acc, full=True):
                 x["count"] += 1
                 continue
             detail = dict(detail)
-            detail.update({"root": cls, "history": [M.describe(M.OPS[i]) for i in path], "model_state": st})
+            detail.update({"root": cls, "history": [M.describe(op_of(M, i)) for i in path], "model_state": st})
             acc[sig] = {"signature": sig, "clause": CLAUSES[clause], "detail": detail, "count": 1,
-                        "replay": {"cls": cls, "path": list(path), "check": "observe", "signature": sig}}
+                        "replay": {"cls": cls, "path": [list(op_of(M, i)) for i in path], "check": "observe",
+                                   "seed": M.seed, "signature": sig}}
     return o.n, o.outcomes
 
 
@@ -887,7 +893,7 @@ def key8(st):
 def model_state(M, path):
     st = ()
     for oi in path:
-        st = model_apply(M, st, M.OPS[oi])[1]
+        st = model_apply(M, st, op_of(M, oi))[1]
     return st
 
 
@@ -921,10 +927,11 @@ def mut_violation(M, cls, path, st, op, fail, expect, info, acc):
     nst = model_apply(M, st, op)[1]
     acc[sig] = {
         "signature": sig, "clause": CLAUSES[clause], "count": 1,
-        "detail": {"root": cls, "history": [M.describe(M.OPS[i]) for i in path], "model_state_before": st,
+        "detail": {"root": cls, "history": [M.describe(op_of(M, i)) for i in path], "model_state_before": st,
                    "operation": M.describe(op), "expectation": expect, "expected_state_after": nst,
                    "failure": fail, "observed": info},
-        "replay": {"cls": cls, "path": list(path), "check": "mutate", "op": list(op), "signature": sig},
+        "replay": {"cls": cls, "path": [list(op_of(M, i)) for i in path], "check": "mutate", "op": list(op),
+                   "seed": M.seed, "signature": sig},
     }
     return sig
 
@@ -1046,7 +1053,7 @@ def pair_violation(M, clause, rel, f, i, j, si, sj, exp, what):
     return {"signature": sig, "clause": CLAUSES[clause],
             "detail": {"left_container_content": si, "right_" + what + "_content": sj, "expected": exp, "observed": f},
             "replay": {"check": "pair", "what": what, "left": jsonable(si), "right": jsonable(sj),
-                       "rel": rel, "signature": sig}}
+                       "rel": rel, "seed": M.seed, "signature": sig}}
 
 
 def jsonable(st):
@@ -1157,7 +1164,7 @@ def run(ctx):
 
 
 def replay(ctx, rep):
-    M = Menu(ctx.seed)
+    M = Menu(rep.get("seed", ctx.seed))
     want = rep.get("signature")
     out = []
     if rep["check"] == "pair":
@@ -1173,7 +1180,7 @@ def replay(ctx, rep):
             clause = "eq_container" if rep["what"] == "container" else "eq_dict"
             out.append(pair_violation(M, clause, rep["rel"], f, 0, 1, si, sj, exp, rep["what"]))
     else:
-        cls, path = rep["cls"], tuple(rep["path"])
+        cls, path = rep["cls"], tuple(tuple(o) for o in rep["path"])
         st = model_state(M, path)
         acc = {}
         if rep["check"] == "observe":
